@@ -194,6 +194,38 @@ def build_af():
         return {"dir": d, "afail": os.path.join(d, "afail"), "hash": hsh}
 
 
+def build_thr():
+    """C19 search build: the library + harness/thr/thr.c with -fsanitize=thread. Cached by content hash like build_repo."""
+    t_srcs = [os.path.abspath(__file__), os.path.join(HARNESS, "thr", "thr.c"), os.path.join(HARNESS, "h_cfg.c"), os.path.join(HARNESS, "corr.h")]
+    hsh = tree_hash(t_srcs)
+    d = os.path.join(BUILD, "repo_thr_%s" % hsh)
+    with Lock("repo_thr"):
+        if os.path.exists(os.path.join(d, "OK")):
+            os.utime(d)
+            return {"dir": d, "thr": os.path.join(d, "thr"), "hash": hsh}
+        if os.path.exists(d):
+            shutil.rmtree(d)
+        os.makedirs(d)
+        srcs, _ = repo_sources()
+        # the guarded hooks stay OFF here: the C08 work counter is a process-wide global, which is exactly what this build looks for
+        flags = [f for f in CFLAGS_COMMON if f != "-D" + GUARD] + ["-O1", "-g", "-fsanitize=thread", "-fno-omit-frame-pointer"]
+        objs, err = _compile_many("clang", flags, srcs, d)
+        if err:
+            shutil.rmtree(d, ignore_errors=True)
+            raise BuildError(err)
+        hobjs, err = _compile_many("clang", flags + ["-I" + HARNESS], [x for x in t_srcs if x.endswith(".c")], d)
+        if err:
+            shutil.rmtree(d, ignore_errors=True)
+            raise BuildError(err)
+        r = run(["clang", "-fsanitize=thread"] + objs + hobjs + ["-lz", "-lpthread", "-o", os.path.join(d, "thr")])
+        if r.returncode != 0:
+            shutil.rmtree(d, ignore_errors=True)
+            raise BuildError("link failed\n" + r.stderr[-3000:])
+        open(os.path.join(d, "OK"), "w").write("ok\n")
+        _prune("repo_thr_", keep=3)
+        return {"dir": d, "thr": os.path.join(d, "thr"), "hash": hsh}
+
+
 def _prune(prefix, keep):
     ds = sorted(glob.glob(os.path.join(BUILD, prefix + "*")), key=os.path.getmtime, reverse=True)
     for old in ds[keep:]:
